@@ -61,3 +61,72 @@ Theorem C11_direct {T} {O : Ops T} {RL : RingLaws T} (sc : @scene T) tm E s r rd
     then direct_val sc s r rdf b else 0))%T.
 Proof. exact (mono_direct sc tm E s r rdf b t). Qed.
 Print Assumptions C11_direct.
+
+(** (5) the receiver formula of the COMPOSED model (Model/Full.v: polygons -> tiling -> visibility
+    -> form factors -> exchange -> receiver), written in the room's own data.  In band [b] and
+    bin [t] the mono curve is the sum, over the patches that the room's point visibility reports
+    visible from the receiver, of
+      patch histogram in the outgoing slot nearest to the receiver direction (direction set of
+      the patch's wall = reference set carried to the wall frame)
+      x pt_solution(receiver mode) of the patch polygon x exp(-m_b d),
+    read from the histogram bin that the code's cyclic delay (np.roll by the ceiling bin of
+    d / c / dt) shows in bin [t] -- with the known wrap (finding C11/receiver_wrap) --
+    plus, when [direct], 1/(4 pi r^2) exp(-m_b r) in the truncation bin of r / c / dt. *)
+From SV Require Import Model.Frame Model.Tiling Model.Visibility Model.PtSolution Model.Full
+  Proofs.FullReceiver.
+
+Theorem C11_room_receiver {T} {O : Ops T} {RL : RingLaws T}
+    (rm : @room T) tm (src rcv : @vec T) K direct b t :
+  b < rm_nb rm -> t < n_samples tm ->
+  get2 (room_mono rm tm src rcv K direct) b t =
+  (sumf (filter (fun k => nthb (room_point_vis rm rcv) k) (seq 0 (rm_np rm))) (fun k =>
+     let N := n_samples tm in
+     let d := vdist (nthv (rm_centers rm) k) rcv in
+     let w := nthn (pr_wall_ids (rm_processed rm)) k in
+     let slot := nearest (wall_dirs (nthv (rm_normals rm) w) (nthv (rm_ups rm) w) (rm_ref_out rm))
+                         (vnormalize (vsub rcv (nthv (rm_centers rm) k))) in
+     let u := (t + (N - delay_ceil d (t_c tm) (t_dt tm) mod N)) mod N in
+     ((get4 (patch_hist (room_scene rm) tm (room_source rm src) K) k slot b u *
+       pt_solution (rm_thr rm) true rcv (nth k (rm_patch_pts rm) [])) *
+      texp ((- nthT (rm_att rm) b) * d))%T) +
+   (if direct && (t =? delay_floor (vnorm (vsub rcv src)) (t_c tm) (t_dt tm))
+    then (let rr := vnorm (vsub rcv src) in
+          (1 * (1 / ((four * tpi) * (rr * rr)))) * texp ((- nthT (rm_att rm) b) * rr))
+    else 0))%T.
+Proof. exact (room_receiver_formula rm tm src rcv K direct b t). Qed.
+Print Assumptions C11_room_receiver.
+
+(** (6) ... and with "delayed by the patch->receiver travel time" at full strength (truncated
+    shift: nothing before the delay, nothing wraps) when the delayed energy of every VISIBLE
+    patch fits into the histogram *)
+Theorem C11_room_receiver_partial {T} {O : Ops T} {RL : RingLaws T}
+    (rm : @room T) tm (src rcv : @vec T) K direct b t :
+  b < rm_nb rm -> t < n_samples tm ->
+  (forall k, k < rm_np rm -> nthb (room_point_vis rm rcv) k = true ->
+     room_recv_bin rm tm rcv k < n_samples tm /\
+     forall u, n_samples tm - room_recv_bin rm tm rcv k <= u -> u < n_samples tm ->
+       get4 (patch_hist (room_scene rm) tm (room_source rm src) K) k (room_recv_slot rm rcv k) b u = 0%T) ->
+  get2 (room_mono rm tm src rcv K direct) b t =
+  (sumf (filter (fun k => nthb (room_point_vis rm rcv) k) (seq 0 (rm_np rm))) (fun k =>
+     let d := vdist (nthv (rm_centers rm) k) rcv in
+     let g := delay_ceil d (t_c tm) (t_dt tm) in
+     if t <? g then 0%T
+     else ((get4 (patch_hist (room_scene rm) tm (room_source rm src) K) k (room_recv_slot rm rcv k) b (t - g) *
+            pt_solution (rm_thr rm) true rcv (nth k (rm_patch_pts rm) [])) *
+           texp ((- nthT (rm_att rm) b) * d))%T) +
+   (if direct && (t =? delay_floor (vnorm (vsub rcv src)) (t_c tm) (t_dt tm))
+    then (let rr := vnorm (vsub rcv src) in
+          (1 * (1 / ((four * tpi) * (rr * rr)))) * texp ((- nthT (rm_att rm) b) * rr))
+    else 0))%T.
+Proof. exact (room_receiver_formula_fits rm tm src rcv K direct b t). Qed.
+Print Assumptions C11_room_receiver_partial.
+
+(** the names used in (6): the receiver-leg bin and the slot towards the receiver *)
+Theorem C11_room_names {T} {O : Ops T} (rm : @room T) tm (rcv : @vec T) k :
+  room_recv_bin rm tm rcv k = delay_ceil (vdist (nthv (rm_centers rm) k) rcv) (t_c tm) (t_dt tm) /\
+  room_recv_slot rm rcv k =
+    nearest (wall_dirs (nthv (rm_normals rm) (nthn (pr_wall_ids (rm_processed rm)) k))
+                       (nthv (rm_ups rm) (nthn (pr_wall_ids (rm_processed rm)) k)) (rm_ref_out rm))
+            (vnormalize (vsub rcv (nthv (rm_centers rm) k))).
+Proof. split; reflexivity. Qed.
+Print Assumptions C11_room_names.
